@@ -15,7 +15,9 @@ Inductive op :=
 | OTresp (peers : list addr)
 | OSkip.
 
-Inductive oresult := XPanic | XErr | XOk (r : reply) | XRot (m : list (addr * bool)) | XPlain.
+(* XBadHash: a reply that names a piece carried a piece_hash that is not the hash of that piece in the torrent *)
+Inductive oresult := XPanic | XErr | XOk (r : reply) | XRot (m : list (addr * bool)) | XPlain | XBadHash.
+Definition bad_hash (r : oresult) : bool := match r with XBadHash => true | _ => false end.
 
 Record ostep := mkstep {
   s_op : op; s_res : oresult; s_state : mgr; s_rx : list (addr * option N);
@@ -345,7 +347,8 @@ Fixpoint run (which : N) (prod : bool) (prev : mgr) (prev_rx : list (addr * opti
   | [] => (k, o)
   | s :: rest =>
       let k' := k && k_step prev s in
-      let o' := o && (if which =? 12 then (negb prod || o12_step prev prev_rx s)
+      let o' := o && negb (bad_hash (s_res s)) &&
+                     (if which =? 12 then (negb prod || o12_step prev prev_rx s)
                       else if which =? 13 then o13_step prev s
                       else if which =? 9 then o09_step prev s
                       else if which =? 1 then o01_step prev s
@@ -395,7 +398,7 @@ Fixpoint run02 (prev : mgr) (tc : list (addr * bool)) (steps : list ostep) (k o 
                  | OSet => map (fun kp => (fst kp, p_choked (snd kp))) (m_peers (s_state s))
                  | _ => tc
                  end in
-      let o' := o && o02m_step prev tc' s in
+      let o' := o && negb (bad_hash (s_res s)) && o02m_step prev tc' s in
       match s_res s with
       | XPanic => (k', o')
       | _ => run02 (s_state s) tc' rest k' o'
